@@ -34,7 +34,7 @@ RULE = ('corr cases = (2-6 input labels incl. labels whose sort order differs fr
         'non-trivial = at least one product applied and at least one element compared numerically; '
         'distinct = hash of the model request line.  roundtrip cases = known per-input delays, bandpasses '
         'and gains fed through add_applycal_sensors with one solution per dump; restored vis must match '
-        'within 2^-20 relative.  v4 cases = synthetic MVF4 data set opened with applycal.')
+        'within 2^-17 relative (float32 phase inside complex_interp; measured max 4.4*2^-20).  v4 cases = synthetic MVF4 data set opened with applycal.')
 TRUSTED = ['Lean 4.33 kernel', 'axioms: propext, Classical.choice, Quot.sound only',
            'hand-written model KatdalModel/Model/ApplyCal.lean tied to /repo by this differential run',
            'double-precision instantiation (ApplyCalFloat.lean) compared with complex64 within 1e-5 relative; '
@@ -45,7 +45,7 @@ CHECKER = 'lake build KatdalModel.Props.C13 kd_c13 && lake env lean <#print axio
 REL = 1e-5
 # round trip: np.abs / np.angle of complex64 solutions are evaluated in float32 inside complex_interp, so each
 # per-input correction carries a phase error of a few float32 ULP of pi; 2^-17 = 64 eps bounds what was measured
-# (max 3.1 * 2^-20 over 4000 cases) with margin.  A wrong conjugate / missing product gives errors of order 1.
+# (max 4.4 * 2^-20 over 3000 cases) with margin.  A wrong conjugate / missing product gives errors of order 1.
 RT_BOUND = 2.0 ** -17
 PROP = 'C13'
 
@@ -470,7 +470,8 @@ def compare_kernels(applied, corr):
 
 
 def same_array(a, b):
-    """bit-level agreement up to 2 ULP-ish, NaN pattern exact (SIMD tails may round differently)"""
+    """agreement to 2e-6 relative, NaN pattern exact (numpy's SIMD body and scalar tail of the complex multiply
+    round differently, so the last bits legitimately depend on the channel-chunk length)"""
     if a.shape != b.shape:
         return False
     an, bn = isnan_c(a), isnan_c(b)
@@ -479,7 +480,7 @@ def same_array(a, b):
     with np.errstate(all='ignore'):
         fin = ~an & np.isfinite(a.real) & np.isfinite(a.imag) & np.isfinite(b.real) & np.isfinite(b.imag)
         err = np.abs(a[fin].astype(np.complex128) - b[fin])
-        return bool(np.all(err <= 4e-7 * np.abs(a[fin]) + 1e-37))
+        return bool(np.all(err <= 2e-6 * np.abs(a[fin]) + 1e-37))
 
 
 def judge(ctx, case, reply, impl):
@@ -503,6 +504,8 @@ def judge(ctx, case, reply, impl):
     cmaps = [c[0] for c in node[2]]
     for c in cmaps:
         ctx.tag('cmap-' + c)
+    # annotation used by the known-finding matcher: the distinct nearest-channel tables among applied products
+    case['_expand_tables'] = sorted({' '.join(c[1:]) for c in node[2] if c[0] == 'e'})
     ctx.tag(f'products-{len(finals)}')
     mirror, mtaint = decode_arr3(node[3])
     spec, taint = decode_arr3(node[4])
@@ -808,6 +811,18 @@ def shrink(ctx, case, what):
     return cur, (bad[0][1] if bad else what)
 
 
+def m_expand_closure(case, what):
+    """known finding: `calc_correction` builds `lambda g, channels: g[expand[channels]]` inside the product loop;
+    `expand` is captured by reference, so every product that needs the nearest-channel map uses the table of the
+    *last* such product.  Recognised only when two applied products need different nearest-channel tables and the
+    disagreement is in the correction values themselves."""
+    return (case.get('kind') == 'corr' and len(case.get('_expand_tables', [])) >= 2
+            and (what.startswith('correction at') or what.startswith('implementation raised IndexError')))
+
+
+MATCHERS = {'c13_expand_closure_shared_between_products': m_expand_closure}
+
+
 def corpus_cases():
     d = os.path.join(common.VERIF, 'corpus', PROP)
     out = []
@@ -818,6 +833,7 @@ def corpus_cases():
 
 
 def run(ctx):
+    ctx.matchers.update(MATCHERS)
     build = common.build_and_audit(PROP, ctx.tier)
     cases = corpus_cases()
     cases += [gen_case(ctx.rng) for _ in range(ctx.q(260, 6000))]
@@ -837,6 +853,7 @@ def run(ctx):
 
 
 def replay(ctx, rep):
+    ctx.matchers.update(MATCHERS)
     build = common.build_and_audit(PROP, 'quick')
     for c, v in eval_any(ctx, [rep['case']]):
         ctx.violation(c, v)
